@@ -164,6 +164,8 @@ class Ex:
     # names
     # =====================================================================================
     def lookup(self, name: str, fr: Frame) -> Val:
+        if name == "__version__":
+            return VStr("<pyxel version>")      # versioneer machinery is not interpreted
         f = fr
         while f is not None:
             if name in f.locals:
@@ -331,6 +333,9 @@ class Ex:
         if isinstance(v, VOpaque):
             if v.kind in ("logger",):
                 return True
+            h = self.cfg.lib_overrides.get(("truth", v.kind))
+            if h is not None:
+                return h(self, v)
             raise Unsupported(f"truth of opaque {v.kind}")
         return truth(v)
 
@@ -1491,8 +1496,8 @@ class Ex:
     def with_generator(self, f: VFunc, args, kwargs, item, body, fr):
         fi = f.fi
         ys = [n for n in self.own_nodes(fi.node) if isinstance(n, ast.Yield)]
-        if len(ys) != 1:
-            raise Unsupported("context manager with several yields")
+        if not ys:
+            raise Unsupported("context manager without yield")
         new = Frame(fi, fi.module, {}, parent=f.closure, cls=fi.cls)
         self.bind(fi, new, args, kwargs, fr)
         new.with_body = (item, body, fr)
@@ -1506,8 +1511,13 @@ class Ex:
                 pass
         finally:
             self.depth -= 1
+        if not getattr(new, "with_body_done", False):
+            self.throw("RuntimeError", "generator didn't yield")
 
     def ex_Expr_yield_in_cm(self, s, fr):
+        if getattr(fr, "with_body_done", False):
+            raise Unsupported("context manager yields twice on one path")
+        fr.with_body_done = True
         item, body, outer = fr.with_body
         v = self.ev(s.value.value, fr) if s.value.value else NONE
         if item.optional_vars is not None:
@@ -1583,6 +1593,8 @@ class Ex:
             return VSym(v.cls, st.fresh_int(base))
         if isinstance(v, VNone):
             return v
+        if isinstance(v, VOpaque) and v.kind in ("xr",):
+            return VOpaque(v.kind, st.fresh_int(base), {"label": base})
         raise Unsupported(f"cannot havoc loop-modified local {base} of kind {type(v).__name__}; give it in the loop spec")
 
     def loop_with_invariant(self, s, fr, spec: LoopSpec, it, ordinal):
